@@ -1,6 +1,7 @@
 //! cv — runtime-monitoring checks for sourcefrog/conserve. See /verif/DESIGN.md.
 
 mod cs;
+mod damage;
 mod fmt06;
 mod history;
 mod icept;
